@@ -145,7 +145,7 @@ JudgeCalls(cs, k, dev, b, focus) ==
        IF r.v = "skip" THEN "skip@" \o ToString(k)
        ELSE IF r.v # "ok" THEN r.v \o "@" \o ToString(k)
        ELSE JudgeCalls(cs, k + 1, dev, r.board, focus)
-Board0(e) == [ram |-> [x \in 0..31 |-> 0], nick |-> e.nick0, m1 |-> e.m1, m2 |-> e.m2, res |-> e.res, volt |-> e.volt]
+Board0(e) == [ram |-> [x \in 0..31 |-> 0], nick |-> e.nick0, m1 |-> e.m1, m2 |-> e.m2, res |-> e.res, volt |-> e.volt, p1 |-> 0, p2 |-> 0]
 Judge(e) == JudgeCalls(Sq(e.calls), 1, e.dev, Board0(e), e.focus)
 TInit == i = 0 /\ verdict = "init"
 TNext == i < Len(Trace) /\ i' = i + 1 /\ verdict' = Judge(Trace[i + 1])
